@@ -319,6 +319,7 @@ pub struct Ctx<F: Fam> {
     pub slots: [Slot<F>; 2],
     pub sets: [SetSlot<F>; 2],
     pub meta: [Meta; 4],
+    pub z: crate::zst::ZState,
     pub fresh: u32,
     pub universe: u32,
     pub op_index: usize,
@@ -382,6 +383,7 @@ impl<F: Fam> Ctx<F> {
             slots: [s0, s1],
             sets: [t0, t1],
             meta: [m0, m1, m2, m3],
+            z: crate::zst::ZState::new(case.hashers[0]),
             fresh: 0,
             universe: case.universe.max(1),
             op_index: 0,
@@ -1166,6 +1168,7 @@ impl<F: Fam> Ctx<F> {
             }
             self.sets[s].model.clear();
         }
+        self.z_finish()?;
         self.probe_key = F::K::mk(u32::MAX);
         self.ledger_check(&[])?;
         if F::K::TRACKED {
